@@ -1,3 +1,4 @@
 /- Aggregate: C09 decode/round-trip theorems (C09.lean) and prefix / invalid-input classification at any depth, any width, any filter (C09Prefix.lean). -/
 import AJ.Props.C09
 import AJ.Props.C09Prefix
+import AJ.Props.C09Doc
